@@ -25,7 +25,7 @@ static void vs_sha256_compress(uint32_t *st, const unsigned char *blk, size_t nb
         }
         st[0]+=a; st[1]+=b; st[2]+=c; st[3]+=d; st[4]+=e; st[5]+=f; st[6]+=g; st[7]+=h;
         blk += 64;
-        g_alt_compress_calls++;
+        __atomic_add_fetch(&g_alt_compress_calls, 1, __ATOMIC_RELAXED);
     }
 }
 /* an incorrect one: the library's self-test on installation must refuse it */
@@ -93,6 +93,16 @@ static void op_ctx_state(void) {
     R_int(ctx->ecmult_gen_ctx.built); R_hex(b, 32);
     R_int(ctx->hash_ctx.fn_sha256_compression == secp256k1_sha256_transform ? 0 : 1);
 }
+/* ctx_static_copy -> slot holding a byte copy of secp256k1_context_static with counting callbacks */
+static void op_ctx_static_copy(void) {
+    int s = free_slot(); secp256k1_context *c;
+    if (s < 0) { bad("no free ctx slot", 0); return; }
+    c = (secp256k1_context *)xmalloc(sizeof(*c)); memcpy(c, secp256k1_context_static, sizeof(*c));
+    c->illegal_callback.fn = cb_ill; c->illegal_callback.data = NULL; c->error_callback.fn = cb_err; c->error_callback.data = NULL;
+    g_ctx[s] = c; g_ctx_mem[s] = c; R_int(s);
+}
+/* ctx_free_copy slot */
+static void op_ctx_free_copy(void) { int s = (int)A_int(0); if (s <= 0 || s >= NCTX || !g_ctx[s] || g_ctx_mem[s] != (void *)g_ctx[s]) { bad("bad slot", 0); return; } free(g_ctx[s]); g_ctx[s] = NULL; g_ctx_mem[s] = NULL; R_int(1); }
 static void op_ctx_list(void) { int i; for (i = 0; i < NCTX; i++) if (g_ctx[i]) R_int(i); }
 static void op_ill_msg(void) { R_str(g_ill_msg[0] ? "msg" : "none"); }
 static void op_selftest(void) { CALL(secp256k1_selftest()); R_int(1); }
@@ -103,5 +113,5 @@ static void op_prealloc_size(void) { size_t s; CALL(s = secp256k1_context_preall
     { "ctx_clone", op_ctx_clone }, { "ctx_prealloc_clone", op_ctx_prealloc_clone }, \
     { "ctx_destroy", op_ctx_destroy }, { "ctx_randomize", op_ctx_randomize }, \
     { "ctx_set_compress", op_ctx_set_compress }, { "ctx_alt_calls", op_ctx_alt_calls }, \
-    { "ctx_state", op_ctx_state }, { "ctx_list", op_ctx_list }, { "ill_msg", op_ill_msg }, \
+    { "ctx_state", op_ctx_state }, { "ctx_static_copy", op_ctx_static_copy }, { "ctx_free_copy", op_ctx_free_copy }, { "ctx_list", op_ctx_list }, { "ill_msg", op_ill_msg }, \
     { "selftest", op_selftest }, { "prealloc_size", op_prealloc_size },
